@@ -135,6 +135,15 @@ theorem step_inv (ctor : Nat → Bool) (s : Sys) (l : Label) (s' : Sys) (o : Obs
         rcases mem_set _ _ _ _ hx with rfl | hx
         · exact ⟨(h tk (List.mem_of_getElem? ht)).chain⟩
         · exact h x hx
+  | foreignExit t b =>
+    simp only [step] at hs
+    cases ht : s[t]? with
+    | none => simp [ht] at hs
+    | some tk =>
+      simp only [ht] at hs
+      split at hs
+      · simp at hs
+      · simp only [Option.some.injEq, Prod.mk.injEq] at hs; obtain ⟨rfl, _⟩ := hs; exact h
 
 theorem exec_inv (ctor : Nat → Bool) (ls : List Label) : ∀ s, Inv s → Inv (exec ctor s ls) := by
   induction ls with
@@ -210,6 +219,14 @@ theorem frame (ctor : Nat → Bool) (s : Sys) (l : Label) (s' : Sys) (o : Obs)
       · simp at hs
       · simp only [Option.some.injEq, Prod.mk.injEq] at hs; obtain ⟨rfl, _⟩ := hs
         rw [List.getElem?_set_ne (by simpa [Label.task] using ht)]; exact hk
+  | foreignExit u b =>
+    simp only [step] at hs
+    cases hu : s[u]? with
+    | none => simp [hu] at hs
+    | some uk =>
+      simp only [hu] at hs; split at hs
+      · simp at hs
+      · simp only [Option.some.injEq, Prod.mk.injEq] at hs; obtain ⟨rfl, _⟩ := hs; exact hk
 
 end Haiway.Tasks
 
@@ -229,6 +246,7 @@ def stepTask (ctor : Nat → Bool) (tk : Task) : Label → Option (Task × Obs)
   | .probe _ ty d => if tk.done then none else some (tk, lookupObs ctor tk.state ty d)
   | .spawn _ => if tk.done then none else some (tk, .none)
   | .finish _ => if tk.done ∨ tk.frames ≠ [] then none else some ({ tk with done := true }, .none)
+  | .foreignExit _ _ => if tk.done then none else some (tk, .refused)
 
 /-- locality: what a label does to its own task's record, and whether it is enabled, depends on that
 record only – never on the other tasks -/
@@ -271,6 +289,12 @@ theorem step_local (ctor : Nat → Bool) (s : Sys) (l : Label) (tk : Task) (hk :
     · simp only [stepTask, step, hk, hc, ↓reduceIte]
     · simp only [stepTask, step, hk, hc, ↓reduceIte]
       exact ⟨_, rfl, by simp [hlt]⟩
+  | foreignExit t b =>
+    simp only [Label.task] at hk hlt ⊢
+    by_cases hd : tk.done
+    · simp only [stepTask, step, hk, hd, ↓reduceIte]
+    · simp only [stepTask, step, hk, hd, Bool.false_eq_true, ↓reduceIte]
+      exact ⟨_, rfl, hk⟩
 
 /-- C03 core: the record of task `t` after any interleaving equals its record after running **only its own
 labels** – the labels of all other tasks, wherever they are interleaved, are irrelevant. -/
